@@ -36,7 +36,7 @@ TOLERANCES = {"rel": 1e-6, "reduction_rel": 1e-5}
 MIN_DECIDED = {"quick": 400, "thorough": 8000}
 MAX_JOBS = 8
 OPS = ["asnumpy", "average", "average_split", "align", "align-rot", "align_multi", "score", "landscape",
-       "landscape-rot", "apply", "classify", "group_align"]
+       "landscape-rot", "apply", "classify", "group_align", "binning"]
 SCHEDS = ["threads", "shuffle", "yield", "yield-cache", "delay"]
 
 
@@ -101,6 +101,10 @@ def _run_op(op, loader, tmpl, tmpl2, Model, tilt=False):
         return [np.asarray(loader.asnumpy())]
     if op == "average":
         return [np.asarray(loader.average())]
+    if op == "binning":
+        # lazily binned loader (bin size 3: no chunk size used here is a multiple of it)
+        bl_ = loader.binning(3, compute=False)
+        return [np.asarray(bl_.image), np.asarray(bl_.asnumpy(output_shape=(4, 4, 4)))]
     if op == "average_split":
         return [np.asarray(loader.average_split(n_set=2, seed=3))]
     if op in ("align", "align-rot", "align_multi", "group_align"):
